@@ -890,7 +890,7 @@ class Machine(TreeEval):
             if isinstance(v, tuple) and v and v[0] == "agg" and v[1] == e[2]:
                 if len(v[2]) == 1:
                     return v[2][0]
-                return ("agg", "tuple", v[2])
+                return v if len(v) == 4 else ("agg", "tuple", v[2])
             raise Unsupported("downcast of %r to %s" % (v, e[2]))
         if k == "field":
             if e[2] not in ("#0", "#1"):
@@ -899,6 +899,13 @@ class Machine(TreeEval):
                     idx = e[3] if len(e) > 3 and isinstance(e[3], int) else None
                     if idx is None and str(e[2]).isdigit():
                         idx = int(e[2])
+                    if idx is None and len(v) == 4:
+                        a = self.facts.adts.get(v[3])
+                        for var in (a or {}).get("variants", ()):
+                            if var["name"] == v[1]:
+                                names = [x.get("name") for x in var["fields"]]
+                                if e[2] in names:
+                                    idx = names.index(e[2])
                     if idx is not None and idx < len(v[2]):
                         return v[2][idx]
                 if isinstance(v, int) and str(e[2]) == "0":
